@@ -212,7 +212,6 @@ type childResult struct {
 	err     error
 }
 
-
 func panicSignature(stderr string) (sig, head string) {
 	i := strings.Index(stderr, "panic: ")
 	if i < 0 {
